@@ -416,7 +416,7 @@ func init() {
 			"oracle B: the explicit-name converter ran, the type-only one did not, the target's argument comes from the explicit one. All converter forms, typed or n-named output, with/without error, shuffled order, unrelated distractors; R repetitions. " +
 			"Mode C (1 case in 5): 2-3 named target parameters n_i:U all produced through ONE type-only converter T->U, each with its own same-named input n_i:T among other named T values; oracle: parameter n_i receives the output of an execution whose argument was the input named n_i. " +
 			"Mode D (1 in 5): the type-only converter has a second type-only input W that must itself be derived from T by another converter; oracle: the T argument of the main converter is still the input named n (which T feeds the nested conversion is not prescribed). " +
-			"Mode E: as D but the second input W is supplied directly (named 'flag', named like the parameter, or type-only), so the cheapest path may enter the converter through that argument. " +
+			"Mode F: modes C and E combined (several named parameters through one type-only converter whose second input is supplied). Mode E: as D but the second input W is supplied directly (named 'flag', named like the parameter, or type-only), so the cheapest path may enter the converter through that argument. " +
 			"non-trivial = >= 2 competing named inputs (A, C, D, E) / both converters present (B)",
 		Assumptions: []string{"both competing converters declare the same output label (the property compares how they take their input)"},
 		Run: func(c *CaseCtx) CaseResult {
@@ -589,10 +589,37 @@ func runC07Multi(c *CaseCtx, r *rand.Rand, names []string) (res CaseResult) {
 	perm3 := r.Perm(nConcrete)
 	T, U, W := perm3[0], perm3[1], perm3[2]
 	perm := r.Perm(len(names))
-	mode := 2 + r.Intn(3)
+	mode := 2 + r.Intn(4)
 	var s Scenario
 	var wanted []string
-	if mode == 4 {
+	if mode == 5 {
+		// mode F = C + E: two or three named parameters through ONE type-only
+		// converter whose second input is supplied directly
+		np := 2 + r.Intn(2)
+		for i := 0; i < np; i++ {
+			wanted = append(wanted, names[perm[i]])
+		}
+		for i := 0; i < np+r.Intn(2); i++ {
+			s.Inputs = append(s.Inputs, Label{Name: names[perm[i]], Type: T})
+		}
+		second := Label{Type: W}
+		if r.Intn(2) == 0 {
+			second.Name = "flag"
+		}
+		s.Inputs = append(s.Inputs, second)
+		in2 := []Label{{Type: T}, second}
+		if r.Intn(2) == 0 {
+			in2[0], in2[1] = in2[1], in2[0]
+		}
+		conv := FuncSpec{In: in2, Out: []Label{{Type: U}}, InForm: formFor(in2, r, false), OutForm: r.Intn(3), HasErr: r.Intn(2) == 0}
+		s.Convs = []FuncSpec{conv}
+		var tin []Label
+		for _, n := range wanted {
+			tin = append(tin, Label{Name: n, Type: U})
+		}
+		r.Shuffle(len(tin), func(a, b int) { tin[a], tin[b] = tin[b], tin[a] })
+		s.Target = FuncSpec{In: tin, InForm: 1 + r.Intn(2)}
+	} else if mode == 4 {
 		// mode E: the type-only converter has a second input W that is
 		// SUPPLIED directly (named or type-only); the path to the converter
 		// may then enter through that argument, and the T argument must still
@@ -719,6 +746,9 @@ func runC07Multi(c *CaseCtx, r *rand.Rand, names []string) (res CaseResult) {
 					key := "wrong-input-converted"
 					if mode == 4 {
 						key = "wrong-input-converted/second-input-supplied"
+					}
+					if mode == 5 {
+						key = "wrong-input-converted/several-parameters-second-input-supplied"
 					}
 					res.violate("C07", key, fmt.Sprintf("parameter %v was converted from the input named %q instead of the input named %q", a.Param, got, a.Param.Name), det)
 				}
